@@ -355,86 +355,3 @@ Arguments V3 T : clear implicits.
 Arguments nbr T : clear implicits.
 Arguments mesh T : clear implicits.
 
-(* ---------- executable comparison on rationals (correspondence) ---------- *)
-Definition qabs_max (l : list Q) : Q :=
-  fold_right (fun x m => if Qle_bool m (Qabs x) then Qabs x else m) 0%Q l.
-
-(* insert the diagonal entry (last of an assembled row) at its sorted place *)
-Fixpoint insert_col (e : nat * Q) (l : list (nat * Q)) : list (nat * Q) :=
-  match l with
-  | [] => [e]
-  | x :: r => if Nat.leb (fst e) (fst x) then e :: l else x :: insert_col e r
-  end.
-Definition sort_cols (l : list (nat * Q)) : list (nat * Q) := fold_right insert_col [] l.
-
-(* both rows sorted by column; entries missing on one side count as 0 *)
-Fixpoint row_agree_fuel (fuel : nat) (bound : Q) (a b : list (nat * Q)) : bool :=
-  match fuel with
-  | O => false
-  | S fuel' =>
-      match a, b with
-      | [], [] => true
-      | (j, x) :: a', [] => Qle_bool (Qabs x) bound && row_agree_fuel fuel' bound a' []
-      | [], (k, y) :: b' => Qle_bool (Qabs y) bound && row_agree_fuel fuel' bound [] b'
-      | (j, x) :: a', (k, y) :: b' =>
-          if Nat.eqb j k then Qle_bool (Qabs (x - y)) bound && row_agree_fuel fuel' bound a' b'
-          else if Nat.ltb j k then Qle_bool (Qabs x) bound && row_agree_fuel fuel' bound a' b
-          else Qle_bool (Qabs y) bound && row_agree_fuel fuel' bound a b'
-      end
-  end.
-Definition row_agree (bound : Q) (a b : list (nat * Q)) : bool :=
-  row_agree_fuel (S (length a + length b)) bound a b.
-
-(* model rows (column, 3-vector) against the implementation's three matrices
-   given row-wise and column-sorted; the bound of a row is
-   tol * max(1, largest |model entry| of that row) *)
-Definition rows_agree (tol : Q) (mrows : list (list (nat * V3 Q)))
-           (irows : list (list (list (nat * Q)))) : list (nat * nat) :=
-  (* returns the failing (axis, row) pairs *)
-  flat_map (fun a =>
-    let ir := nth a irows [] in
-    flat_map (fun p : nat * bool => if snd p then [] else [(a, fst p)])
-      (mapi (fun i (mr : list (nat * V3 Q)) =>
-               let mrow := sort_cols (map (fun c => (fst c, comp a (snd c))) mr) in
-               let sc := qabs_max (map snd mrow) in
-               let bound := Qred (tol * (if Qle_bool 1 sc then sc else 1)) in
-               (i, row_agree bound mrow (nth i ir [])))
-            mrows))
-    [0; 1; 2]%nat
-  ++ (if forallb (fun ir => Nat.eqb (length ir) (length mrows)) irows
-         && Nat.eqb (length irows) 3 then [] else [(99, 99)]%nat).
-
-Definition kern_none : V3 Q -> Q := fun _ => 1%Q.
-
-Definition model_grad_rows (o : opts) (m : mesh Q) (evol : list Q)
-  : option (list (list (nat * V3 Q))) :=
-  match mesh_rows QOps o kern_none m evol with
-  | None => None
-  | Some rows => Some (grad_rows QOps (o_moment o) rows)
-  end.
-
-Definition corr_matrices (tol : Q) (o : opts) (m : mesh Q) (evol : list Q)
-           (impl : list (list (list (nat * Q)))) : option (list (nat * nat)) :=
-  match model_grad_rows o m evol with
-  | None => None
-  | Some mr => Some (rows_agree tol mr impl)
-  end.
-
-(* convenience function output: n x 3 x nfeat *)
-Definition conv_agree (tol : Q) (o : opts) (m : mesh Q) (evol : list Q) (nfeat : nat)
-           (data : list (list Q)) (impl : list (list (list Q))) : option (list nat) :=
-  match spatial_gradients QOps o kern_none m evol nfeat data with
-  | None => None
-  | Some g =>
-      let sc := qabs_max (concat (concat g)) in
-      let bound := Qred (tol * (if Qle_bool 1 sc then sc else 1)) in
-      Some (flat_map (fun p : nat * bool => if snd p then [] else [fst p])
-        (mapi (fun i gi =>
-           (i, let ii := nth i impl [] in
-               Nat.eqb (length ii) (length gi) &&
-               forallb (fun ab => Nat.eqb (length (fst ab)) (length (snd ab)) &&
-                                  forallb (fun xy => Qle_bool (Qabs (fst xy - snd xy)) bound)
-                                          (combine (fst ab) (snd ab)))
-                       (combine gi ii))) g)
-        ++ (if Nat.eqb (length impl) (length g) then [] else [999%nat]))
-  end.
